@@ -96,6 +96,22 @@ def run(check):
   if not r_ts.require(mvar is not None, 'drain result is not unpacked into (metric, datapoints): %s' % norm(dm)):
     return
 
+  def is_dm(name, at, depth=0):
+    """`name`, as seen at CFG node `at`, holds the metric bound by the drain (directly, or through plain copies
+    `x = m` / `x, y = (m, d)` left by spliced helpers)"""
+    rds = reaching_defs(g, name, at)
+    if rds == [d]:
+      return name == mvar
+    if len(rds) != 1 or rds[0] is g.entry or depth > 3:
+      return False
+    v = value_assigned(rds[0], name)
+    if isinstance(v, ast.Name):
+      return is_dm(v.id, rds[0], depth + 1)
+    if isinstance(v, tuple) and v[0] == 'unpack' and isinstance(v[1], (ast.Tuple, ast.List)) and v[2] and len(v[2]) == 1 and \
+       v[2][0] < len(v[1].elts) and isinstance(v[1].elts[v[2][0]], ast.Name):
+      return is_dm(v[1].elts[v[2][0]].id, rds[0], depth + 1)
+    return False
+
   after_drain = g.after(d, normal_only=True)
   errors_after = [e for e in errors if e in g.reach(after_drain, removed_nodes={d})]
   terminals = set(writes) | set(dropped) | set(errors_after)
@@ -156,7 +172,7 @@ def run(check):
     a0, a1 = call.args[0], call.args[1]
     if isinstance(a0, ast.Name):
       rd = reaching_defs(g, a0.id, w)
-      if rd == [d] and a0.id == mvar:
+      if is_dm(a0.id, w):
         r_own.ok('metric argument = drained metric', fn.loc(call))
       else:
         r_own.violate('metric argument', fn, call,
@@ -184,9 +200,7 @@ def run(check):
     t = lab[1]
     if not (isinstance(t, ast.Call) and is_db(t, 'exists') and t.args and isinstance(t.args[0], ast.Name)):
       return False
-    if t.args[0].id != mvar:
-      return False
-    return reaching_defs(g, mvar, a) == [d]
+    return is_dm(t.args[0].id, a)
   for w in writes:
     rr = g.reach(after_drain, removed_nodes={d}, removed_edge=exists_true)
     if w in rr:
@@ -221,7 +235,7 @@ def run(check):
 
   def exists_false(pol, t, n):
     return pol == 'F' and isinstance(t, ast.Call) and is_db(t, 'exists') and t.args and \
-      isinstance(t.args[0], ast.Name) and t.args[0].id == mvar and reaching_defs(g, mvar, n) == [d]
+      isinstance(t.args[0], ast.Name) and is_dm(t.args[0].id, n)
   fedges = g.test_edges(exists_false)
   if not fedges:
     r_acc.cannot_decide('no exists(%s)-False edge after the drain' % mvar)
@@ -235,7 +249,7 @@ def run(check):
   for dn in [x for x in dropped if x in g.reach(after_drain, removed_nodes={d})]:
     def not_exists(a, lab, b):
       return isinstance(lab, tuple) and lab[0] == 'F' and isinstance(lab[1], ast.Call) and is_db(lab[1], 'exists') and lab[1].args and \
-        isinstance(lab[1].args[0], ast.Name) and lab[1].args[0].id == mvar
+        isinstance(lab[1].args[0], ast.Name) and is_dm(lab[1].args[0].id, a)
     if dn in g.reach(after_drain, removed_nodes={d}, removed_edge=not_exists, normal_only=True):
       p_ = g.path(after_drain, dn, removed_nodes={d}, removed_edge=not_exists, normal_only=True)
       tests = [x for x in (p_ or []) if x.kind == 'test']
@@ -319,6 +333,9 @@ def _chase(g, expr, use_node, drain_node, dvar, depth):
     if rd is g.entry:
       return 'unknown', '`%s` may be undefined' % var
     v = value_assigned(rd, var)
+    if isinstance(v, tuple) and v[0] == 'unpack' and isinstance(v[1], (ast.Tuple, ast.List)) and v[2] and len(v[2]) == 1 and \
+       v[2][0] < len(v[1].elts):
+      v = v[1].elts[v[2][0]]           # x, y = (a, b): a plain copy of one component
     if v is None or isinstance(v, tuple):
       return 'unknown', 'definition of `%s` at line %d' % (var, rd.lineno)
     verdict, why = _chase(g, v, rd, drain_node, dvar, depth + 1)
